@@ -98,25 +98,40 @@ Proof. intros b H E. unfold head_off in H. now rewrite E in H. Qed.
 Definition short_blocks (code : list N) : Prop :=
   Forall (fun b => (length (b_ops b) <= 9359)%nat) (blocks_of code).
 
-Lemma blocks_shape : forall code,
-  Forall (fun b => b < 256) code -> N.of_nat (length code) <= 65536 -> short_blocks code ->
-  Forall (fun b => block_shape (b_off b) (b_ops b)) (blocks_of code).
+Definition block_basic (b : block) : Prop :=
+  b_ops b <> [] /\ Forall wf_item (b_ops b) /\ Forall bytes_ok (b_ops b) /\
+  jmp_only_last cancun_jmp (b_ops b) /\
+  b_off b + block_size (mkblock (b_off b) (b_ops b)) <= 65536.
+
+Lemma blocks_basic : forall code,
+  Forall (fun b => b < 256) code -> N.of_nat (length code) <= 65536 ->
+  Forall block_basic (blocks_of code).
 Proof.
-  intros code Hb Hl Hs. destruct (blocks_facts code) as (A & B & C).
+  intros code Hb Hl. destruct (blocks_facts code) as (A & B & C).
   destruct (items_facts code) as (rest & F & Wf & _). pose proof (items_bytes code Hb) as By.
   apply Forall_forall. intros b Hin.
-  unfold short_blocks in Hs. rewrite Forall_forall in B, Hs. destruct (B b Hin) as (H1 & _ & H3).
+  rewrite Forall_forall in B. destruct (B b Hin) as (H1 & _ & H3).
   assert (Sub : forall it, In it (b_ops b) -> In it (items_of code)).
   { intros it Hi. rewrite <- A. eapply all_ops_in; eauto. }
-  unfold block_shape. split; [now apply head_nonempty|]. split.
+  unfold block_basic. split; [now apply head_nonempty|]. split.
   { apply Forall_forall. intros it Hi. rewrite Forall_forall in Wf. auto. } split.
-  { apply Forall_forall. intros it Hi. rewrite Forall_forall in By. exact (proj1 (By it (Sub it Hi))). } split.
-  { exact H3. } split.
-  { exact (Hs b Hin). }
+  { apply Forall_forall. intros it Hi. rewrite Forall_forall in By. exact (By it (Sub it Hi)). } split.
+  { exact H3. }
   destruct (block_end_bound _ _ _ C Hin) as [_ E]. rewrite total_size_flatten, A in E.
   assert (L : (length (flatten (items_of code)) <= length code)%nat).
   { rewrite <- F at 2. rewrite app_length. lia. }
   replace (mkblock (b_off b) (b_ops b)) with b by (destruct b; reflexivity). lia.
+Qed.
+
+Lemma blocks_shape : forall code,
+  Forall (fun b => b < 256) code -> N.of_nat (length code) <= 65536 -> short_blocks code ->
+  Forall (fun b => block_shape (b_off b) (b_ops b)) (blocks_of code).
+Proof.
+  intros code Hb Hl Hs. pose proof (blocks_basic code Hb Hl) as B.
+  unfold short_blocks in Hs. rewrite Forall_forall in *. intros b Hin.
+  destruct (B b Hin) as (H1 & H2 & H3 & H4 & H5). unfold block_shape.
+  repeat split; auto.
+  - eapply Forall_impl; [|exact H3]. intros it Hi. exact (proj1 Hi).
 Qed.
 
 (* ---------- annotated blocks: distinct offsets, translatable exits ---------- *)
